@@ -1,5 +1,5 @@
 /-
-  The proved fragment of C10: integer arithmetic (+, -, *, unary -) over `value`, `this.X` and
+  The proved fragment of C10: integer arithmetic (+, -, *, /, %, unary -) over `value`, `this.X` and
   literals, compared by the six comparison operators and combined with &&, ||, ! — on fields of Go
   type `int` / `int64` — with reference CEL semantics (int64, overflow = error, && / || absorb
   errors) on one side and Go semantics of the PARSED output text (two's-complement wrap-around,
@@ -20,6 +20,8 @@ inductive IntE where
   | add (a b : IntE)
   | sub (a b : IntE)
   | mul (a b : IntE)
+  | div (a b : IntE)
+  | mod (a b : IntE)
   | neg (a : IntE)
   deriving Repr, Inhabited
 
@@ -47,6 +49,8 @@ def IntE.toExpr : IntE → Expr
   | .add a b => .call "_+_" [a.toExpr, b.toExpr]
   | .sub a b => .call "_-_" [a.toExpr, b.toExpr]
   | .mul a b => .call "_*_" [a.toExpr, b.toExpr]
+  | .div a b => .call "_/_" [a.toExpr, b.toExpr]
+  | .mod a b => .call "_%_" [a.toExpr, b.toExpr]
   | .neg a => .call "-_" [a.toExpr]
 
 def BoolE.toExpr : BoolE → Expr
@@ -70,6 +74,14 @@ def celI (field : String) (ρ : String → Int) : IntE → Option Int
   | .add a b => match celI field ρ a, celI field ρ b with | some x, some y => chk (x + y) | _, _ => none
   | .sub a b => match celI field ρ a, celI field ρ b with | some x, some y => chk (x - y) | _, _ => none
   | .mul a b => match celI field ρ a, celI field ρ b with | some x, some y => chk (x * y) | _, _ => none
+  -- division truncates toward zero, the remainder takes the sign of the dividend (as in Go); a zero divisor is an
+  -- evaluation error, and so is MinInt64 / -1 (overflow) — MinInt64 % -1 is treated as an error too (cel-go reports overflow)
+  | .div a b => match celI field ρ a, celI field ρ b with
+    | some x, some y => if y = 0 then none else chk (Int.tdiv x y)
+    | _, _ => none
+  | .mod a b => match celI field ρ a, celI field ρ b with
+    | some x, some y => if y = 0 then none else if x = -9223372036854775808 ∧ y = -1 then none else chk (Int.tmod x y)
+    | _, _ => none
   | .neg a => match celI field ρ a with | some x => chk (-x) | none => none
 
 /-- `none` = evaluation error; && and || are commutative and absorb errors (CEL spec) -/
@@ -103,7 +115,11 @@ def goI (ρ : String → Int) : GoTree → Option Int
     match goI ρ l, goI ρ r with
     | some x, some y =>
       if op == "+" then some (wrap (x + y)) else if op == "-" then some (wrap (x - y))
-      else if op == "*" then some (wrap (x * y)) else none
+      else if op == "*" then some (wrap (x * y))
+      -- a zero divisor panics at run time (`none`); MinInt64 / -1 wraps to MinInt64, MinInt64 % -1 is 0
+      else if op == "/" then (if y = 0 then none else some (wrap (Int.tdiv x y)))
+      else if op == "%" then (if y = 0 then none else some (wrap (Int.tmod x y)))
+      else none
     | _, _ => none
   | _ => none
 
@@ -140,6 +156,8 @@ def IntE.tree (field : String) : IntE → GoTree
   | .add a b => .bin "+" (a.tree field) (b.tree field)
   | .sub a b => .bin "-" (a.tree field) (b.tree field)
   | .mul a b => .bin "*" (a.tree field) (b.tree field)
+  | .div a b => .bin "/" (a.tree field) (b.tree field)
+  | .mod a b => .bin "%" (a.tree field) (b.tree field)
   | .neg a => .neg (a.tree field)
 
 def BoolE.tree (field : String) : BoolE → GoTree
@@ -150,7 +168,7 @@ def BoolE.tree (field : String) : BoolE → GoTree
   | .not a => .not (a.tree field)
 
 def IntE.prec : IntE → Nat
-  | .add _ _ => 4 | .sub _ _ => 4 | .mul _ _ => 5 | _ => 6
+  | .add _ _ => 4 | .sub _ _ => 4 | .mul _ _ => 5 | .div _ _ => 5 | .mod _ _ => 5 | _ => 6
 
 def BoolE.prec : BoolE → Nat
   | .or _ _ => 1 | .and _ _ => 2 | .cmp _ _ _ => 3 | _ => 6
@@ -165,6 +183,8 @@ def IntE.isConst : IntE → Bool
   | .add a b => a.isConst && b.isConst
   | .sub a b => a.isConst && b.isConst
   | .mul a b => a.isConst && b.isConst
+  | .div a b => a.isConst && b.isConst
+  | .mod a b => a.isConst && b.isConst
   | .neg a => a.isConst
 
 def IntE.compiles : IntE → Bool
@@ -174,7 +194,27 @@ def IntE.compiles : IntE → Bool
   | .add a b => a.compiles && b.compiles && !(a.isConst && b.isConst)
   | .sub a b => a.compiles && b.compiles && !(a.isConst && b.isConst)
   | .mul a b => a.compiles && b.compiles && !(a.isConst && b.isConst)
+  | .div a b => a.compiles && b.compiles && !(a.isConst && b.isConst)
+  | .mod a b => a.compiles && b.compiles && !(a.isConst && b.isConst)
   | .neg a => a.compiles && !a.isConst
+
+/-- no division or remainder of the expression meets a zero divisor when Go evaluates it (two's-complement values):
+    the run-time panic of `x / 0` is the known finding C17-cel-div; the theorems about Go's result assume it away -/
+def IntE.divSafe (field : String) (ρ : String → Int) : IntE → Bool
+  | .add a b => a.divSafe field ρ && b.divSafe field ρ
+  | .sub a b => a.divSafe field ρ && b.divSafe field ρ
+  | .mul a b => a.divSafe field ρ && b.divSafe field ρ
+  | .div a b => a.divSafe field ρ && b.divSafe field ρ && (goI ρ (b.tree field) != some 0)
+  | .mod a b => a.divSafe field ρ && b.divSafe field ρ && (goI ρ (b.tree field) != some 0)
+  | .neg a => a.divSafe field ρ
+  | _ => true
+
+def BoolE.divSafe (field : String) (ρ : String → Int) : BoolE → Bool
+  | .lit _ => true
+  | .cmp _ a b => a.divSafe field ρ && b.divSafe field ρ
+  | .and a b => a.divSafe field ρ && b.divSafe field ρ
+  | .or a b => a.divSafe field ρ && b.divSafe field ρ
+  | .not a => a.divSafe field ρ
 
 def BoolE.compiles : BoolE → Bool
   | .lit _ => true
